@@ -37,7 +37,7 @@ namespace c17
   typedef LAFEM::DenseVector<double, Index> RVec;
   typedef Analytic::Common::SineBubbleFunction<2> RFunc;
 
-  struct RealOpts { int max_cells = 144; int wd_ms = 1500; };
+  struct RealOpts { int max_cells = 144; int wd_ms = 5000; };
 
   struct REnv
   {
@@ -198,6 +198,7 @@ namespace c17
     c.label(workers_class(nw_pred)); c.label("calls:" + std::to_string(reps)); for(auto& s : scheds) c.label("sched:" + std::to_string(s.mode));
     c.label("cells:" + std::string(sub.cells.empty() ? "0" : sub.cells.size() == 1 ? "1" : sub.cells.size() <= 16 ? "2-16" : "17+"));
     c.announce();
+    verdict_fd() = c.fd;
 
     RQ1 q1(trafo); RQ2 q2(trafo);
     DA<RTrafo> da(trafo); da.set_threading_strategy(cfg.strat); da.set_max_worker_threads(cfg.maxw);
